@@ -35,4 +35,22 @@ class C02(OracleBase):
             Gen("SkywayOracleGen", "SkywayOracleGen_sim", "simulate", num=20000, depth=16, tiers=("thorough",))]
 
 
-CHECK = C02()
+class C02Dup(OracleBase):
+    """World in which two of the three validators do not reach quorum (30/30/40): votes, resets and re-votes in every
+    order (the stored vote list is in arrival order, so both address orders of the first two voters occur)."""
+    pid = "C02"
+    prefixes = ("C02.",)
+    mc = []
+    drive_env = {"VERIF_ORACLE_POWERS": "30,30,40"}
+    gens = [Gen("SkywayOracleGen", "SkywayOracleGen_dup", "bfs", tiers=("quick", "thorough"), timeout=600)]
+
+
+from pipeline import Multi
+
+
+class C02All(Multi):
+    pid = "C02"
+    parts = [C02(), C02Dup()]
+
+
+CHECK = C02All()
